@@ -86,6 +86,16 @@ class World:
         return kind, val, self.tr.writes[before:]
 
 
+def draw_id(inp, name, part, lo, hi, child=False):
+    """Symbolic id in [lo,hi], or - for 'boundary' partitions - a pick from a concrete id set."""
+    ids = part.get("cidset" if child else "idset")
+    if name == "c" and part.get("cevset"):
+        ids = part["cevset"]
+    if ids:
+        return ids[inp.pick(name, len(ids))]
+    return inp.int(name, lo, hi)
+
+
 def build_registry(w, inp, part, prefix=""):
     """Symbolic registry shape: 0..maxnodes nodes with symbolic distinct ids, each with 0..maxch
     children with symbolic ids; optional stored value; returns list of node ids."""
@@ -95,7 +105,7 @@ def build_registry(w, inp, part, prefix=""):
     nn = part["fixnodes"] if "fixnodes" in part else inp.pick(prefix + "nn", maxnodes + 1)
     ids = []
     for i in range(nn):
-        a = inp.int(prefix + "a%d" % i, idlo, idhi)
+        a = draw_id(inp, prefix + "a%d" % i, part, idlo, idhi)
         for b in ids:
             if a == b:
                 raise Reject
@@ -106,7 +116,7 @@ def build_registry(w, inp, part, prefix=""):
         nc = part["fixch"] if "fixch" in part else inp.pick(prefix + "nc%d" % i, maxch + 1)
         cids = []
         for j in range(nc):
-            cc = inp.int(prefix + "c%d_%d" % (i, j), part.get("cidlo", idlo), part.get("cidhi", min(idhi, 254)))
+            cc = draw_id(inp, prefix + "c%d_%d" % (i, j), part, part.get("cidlo", idlo), part.get("cidhi", min(idhi, 254)), child=True)
             for d in cids:
                 if cc == d:
                     raise Reject
